@@ -903,7 +903,10 @@ def g_pool(b):
         P, s, g = rng.randint(1, 3), rng.randint(1, 3), rng.randint(1, 3)
         dims.append(((g - 1) * s + P, P, s))
     shape = lead + tuple(d[0] for d in dims)
-    vals = np.array(rng.sample([round(0.1 * i - 3.0, 2) for i in range(200)], int(np.prod(shape)))).reshape(shape)  # distinct values: no ties
+    n = int(np.prod(shape))
+    if n > 150:
+        return None
+    vals = np.array(rng.sample([round(0.1 * i - 3.0, 2) for i in range(200)], n)).reshape(shape)  # distinct values: no ties
     x = b.leaf(shape, values=vals)
     strides = [d[2] for d in dims]
     stride = strides[0] if len(set(strides)) == 1 and rng.random() < 0.5 else ["t", strides]
